@@ -1,8 +1,8 @@
 SPECIFICATION Spec
 CONSTANTS
   MinSet <- MCMin
-  SpanSet = {0, 8, 16, 20, 36, 40, 100}
-  StepSet = {2, 8, 12, 16}
+  SpanSet = {0, 3, 7, 8, 9, 16, 20, 36, 40, 100}
+  StepSet = {1, 2, 3, 8, 12, 16}
   LenSet = {2, 3, 4, 5}
   YsOf <- MCYs
   PassSet = {0, 1, 2, 3}
